@@ -138,6 +138,22 @@ Definition k_follower2 : raft :=
                 (3, k_rep 0 4 (Inflights.new 4))] k_conf3 [] 4 false)
          [] [12; 13; 14] None.
 
+(* ------------------------------------------------------------------ *)
+(* (vi) a node that has been REMOVED from the group (it applied its own removal: it is
+   neither in the configuration {2,3} nor in its progress map, promotable = false) whose
+   application calls RawNode::campaign().  Raft::step grants votes without a membership
+   check, so the two remaining voters answer; on the second grant the node wins and
+   become_leader unwraps its own Progress. *)
+Definition k_removed : raft :=
+  mkRaft 2 2 1 [] (mkLog k_store3 (u_new 4) 3 3 3 0) 4 u64_max 0 Follower false 2 None 0 (ro_new 0)
+         0 0 false false false false false 1 10 15 10 20 0%Z u64_max 0 0 u64_max
+         (mkTr [(2, k_fresh_pr 4); (3, k_fresh_pr 4)] (mkConf [2; 3] [] [] [] false) [] 4 false)
+         [] [12; 13; 14] None.
+Definition k_removed_node : rawnode := mkRN k_removed (mkSS 2 Follower) (mkHS 2 2 3) 7 [] 3.
+Definition k_grant (from : N) : msg :=
+  msg_default <| m_type := MsgRequestVoteResponse |> <| m_to := 1 |> <| m_from := from |>
+    <| m_term := 3 |>.
+
 End C20W.
 Import C20W.
 
@@ -400,4 +416,35 @@ Proof.
   split; [vm_compute; reflexivity|]. split; [reflexivity|].
   split; [reflexivity|]. split; [reflexivity|]. split; [reflexivity|].
   vm_compute; reflexivity.
+Qed.
+
+(* ================================================================== *)
+(* (vi) NEW finding of this work: campaign() on a removed node that then wins. *)
+Theorem known_removed_node_campaign_witness :
+  exists n n1 g2 n2 g3,
+    get_pr (rn_raft n) (r_id (rn_raft n)) = None /\               (* not tracked: removed *)
+    voters_contains (conf_of (rn_raft n)) (r_id (rn_raft n)) = false /\
+    r_promotable (rn_raft n) = false /\ r_state (rn_raft n) = Follower /\
+    rn_tick n = Ok (n <| rn_raft := (rn_raft n) <| r_election_elapsed := 1 |> |>, false) /\
+                                                                  (* ticks never campaign *)
+    rn_campaign n = Ok (n1, E_OK) /\                              (* the application does *)
+    r_state (rn_raft n1) = Candidate /\ r_term (rn_raft n1) = r_term (rn_raft n) + 1 /\
+    map (fun m => (m_type m, m_to m)) (r_msgs (rn_raft n1)) = [(MsgRequestVote, 2); (MsgRequestVote, 3)] /\
+    m_type g2 = MsgRequestVoteResponse /\ m_reject g2 = false /\ m_from g2 = 2 /\
+    m_type g3 = MsgRequestVoteResponse /\ m_reject g3 = false /\ m_from g3 = 3 /\
+    m_term g2 = r_term (rn_raft n1) /\ m_term g3 = r_term (rn_raft n1) /\
+    rn_step n1 g2 = Ok (n2, E_OK) /\ r_state (rn_raft n2) = Candidate /\
+    rn_step n2 g3 = Panic site_self_progress.
+Proof.
+  exists k_removed_node. eexists. exists (k_grant 2). eexists. exists (k_grant 3).
+  split; [vm_compute; reflexivity|]. split; [vm_compute; reflexivity|].
+  split; [reflexivity|]. split; [reflexivity|].
+  split; [vm_compute; reflexivity|].
+  split; [vm_compute; reflexivity|].
+  split; [reflexivity|]. split; [vm_compute; reflexivity|]. split; [vm_compute; reflexivity|].
+  split; [reflexivity|]. split; [reflexivity|]. split; [reflexivity|].
+  split; [reflexivity|]. split; [reflexivity|]. split; [reflexivity|].
+  split; [vm_compute; reflexivity|]. split; [vm_compute; reflexivity|].
+  split; [vm_compute; reflexivity|]. split; [reflexivity|].
+  vm_compute. reflexivity.
 Qed.
